@@ -23,7 +23,7 @@ import (
 func init() {
 	Registry["C08"] = &Check{
 		Scenarios: c08Scenarios,
-		Rule: "Server.Serve on a scripted listener with two connections (both accepted, or one accepted and one attached with diam.NewConn); three requests per connection (re-auth, device-watchdog, capabilities-exchange, in that order) delivered as {one segment, one segment per message, split at the header/body border, first message in 10-byte pieces, first message one byte at a time}; instrumented handlers record enter/exit around a scheduling point and answer; variants: plain, and the first handler on connection A blocked for ever; every schedule up to preemption bound 3 (thorough 6). The environment is eager (all fragments queued before the server starts; a Read never crosses a fragment boundary), because the arrival instant of a fragment is unobservable to a per-connection single-threaded reader; what is explored is every interleaving of the accept loop, the per-connection readers and the handlers.",
+		Rule: "Server.Serve on a scripted listener with two connections (both accepted, or one accepted and one attached with diam.NewConn); three requests per connection (re-auth, device-watchdog, capabilities-exchange, in that order) delivered as {one segment, one segment per message, split at the header/body border, first message in 10-byte pieces, first message one byte at a time}; instrumented handlers record enter/exit around a scheduling point and answer; variants: plain, and the first handler on connection A blocked for ever; one arrival pattern runs on a zero Server{} (DefaultServeMux, default dictionary); every schedule up to preemption bound 3 (thorough 6). The environment is eager (all fragments queued before the server starts; a Read never crosses a fragment boundary), because the arrival instant of a fragment is unobservable to a per-connection single-threaded reader; what is explored is every interleaving of the accept loop, the per-connection readers and the handlers.",
 		Assume: []string{"data-race freedom between visible operations (audited separately with -race)"},
 		QuickBudget: 120, ThoroughBudget: 2400,
 	}
@@ -118,6 +118,7 @@ type srvOpts struct {
 	late      string         // connection offered only after `lateAfter` is closed
 	lateAfter string
 	reports   bool           // start the error-report observer
+	defaultMux bool          // Server.Handler is nil: the package-level DefaultServeMux dispatches
 	notifyOn  string         // connection whose first handler requests CloseNotify (starts the pipe copier)
 	held      string         // late connection whose first message is cut inside its body; the rest follows only after heldAfter was fully answered
 	heldAfter string
@@ -131,6 +132,9 @@ func srvBody(o srvOpts) func() {
 		lis := vnet.NewListener()
 		st.lis = lis
 		mux := diam.NewServeMux()
+		if o.defaultMux {
+			mux = diam.DefaultServeMux
+		}
 		st.mux = mux
 		mux.HandleFunc("ALL", func(c diam.Conn, m *diam.Message) {
 			id := fmt.Sprintf("%d.%d", m.Header.HopByHopID, m.Header.EndToEndID)
@@ -158,6 +162,9 @@ func srvBody(o srvOpts) func() {
 			vs.Event("handler exit %s", id)
 		})
 		srv := &diam.Server{Handler: mux, Dict: dict.Default}
+		if o.defaultMux {
+			srv = &diam.Server{} // nil handler and nil dictionary: the package defaults
+		}
 		if o.reports {
 			// error report observer (capacity-1 channel: count what is offered)
 			vs.GoNamed("reports", true, func() {
@@ -290,6 +297,9 @@ func c08Scenarios(tier string) []*Scenario {
 				o := srvOpts{names: []string{"A", "B"}, nmsg: 3, pattern: map[string]string{"A": pt[0], "B": pt[1]}, attach: map[string]bool{"B": attach}}
 				if pt[0] == "split" {
 					o.tempBefore = map[int]int{0: 1} // one temporary accept error before the first connection
+				}
+				if pt[0] == "each" && !attach {
+					o.defaultMux = true // this variant runs on Server{} with the package-level DefaultServeMux
 				}
 				if mode == "blockA" {
 					o.blockFirst = "A"
